@@ -148,6 +148,9 @@ async fn client(sh: Arc<Shared>, c: usize, spec: ClientSpec, slots: Slots) {
                         sh.model_add(*a, 1, "clone");
                     }
                     set_slot(&sh, &slots, c, to, Some(n));
+                } else {
+                    // the source slot is empty at run time (an earlier upgrade failed): the target must not keep its old content
+                    set_slot(&sh, &slots, c, to, None);
                 }
             }
             Op::DropSlot { slot } => set_slot(&sh, &slots, c, slot, None),
@@ -159,9 +162,7 @@ async fn client(sh: Arc<Shared>, c: usize, spec: ClientSpec, slots: Slots) {
                         _ => None,
                     }
                 };
-                if let Some(n) = new {
-                    set_slot(&sh, &slots, c, to, Some(n));
-                }
+                set_slot(&sh, &slots, c, to, new);
             }
             Op::Upgrade { from, to } => {
                 let up = {
@@ -176,8 +177,15 @@ async fn client(sh: Arc<Shared>, c: usize, spec: ClientSpec, slots: Slots) {
                         sh.model_add(a, 1, "upgrade-some");
                         set_slot(&sh, &slots, c, to, Some(Hdl::S(a, h)));
                     }
-                    Some((a, None)) => sh.model_add(a, 0, "upgrade-none"),
-                    None => {}
+                    Some((a, None)) => {
+                        sh.model_add(a, 0, "upgrade-none");
+                        // the generator built the later ops on this slot for actor `a`: the slot must not keep referring to
+                        // whatever it held before (a message scripted for `a` could otherwise reach another actor)
+                        set_slot(&sh, &slots, c, to, None);
+                    }
+                    None => {
+                        set_slot(&sh, &slots, c, to, None);
+                    }
                 }
             }
             Op::ProbeAlive { slot } => {
